@@ -1,5 +1,109 @@
-"""Run Kani harness crates (real sources pulled in with #[path]); see DESIGN.md section 2."""
+"""Run Kani harness crates (real sources pulled in with #[path]); see DESIGN.md section 2.
+
+unit config (contracts/units.json):
+  {"kind": "kani", "crate": "kani/select_all", "flags": [...],
+   "harnesses": [{"name": "rotation_n3", "tiers": ["quick","thorough"], "tags": ["C18"], "bound": "n = 3 futures",
+                  "complete": false, "real_fns": ["zlink-core/src/server/select_all.rs: SelectAll::poll"]} ...]}
+"""
+import os
+import re
+import shutil
+import subprocess
+import time
+from concurrent.futures import ThreadPoolExecutor
+
+
+def _run_harness(crate_dir, name, flags, timeout):
+    t0 = time.time()
+    cmd = ["cargo", "kani"] + flags + ["--harness", name]
+    env = dict(os.environ, CARGO_NET_OFFLINE="true")
+    try:
+        p = subprocess.run(cmd, cwd=crate_dir, capture_output=True, text=True, env=env, timeout=timeout)
+        out = p.stdout + "\n" + p.stderr
+        rc = p.returncode
+    except subprocess.TimeoutExpired as e:
+        out = (e.stdout or b"").decode(errors="replace") if isinstance(e.stdout, bytes) else (e.stdout or "")
+        out += "\nTIMEOUT"
+        rc = -9
+    return {"name": name, "cmd": " ".join(cmd), "out": out, "rc": rc, "wall_s": time.time() - t0}
+
+
+CHECK_RE = re.compile(r"Check (\d+): (\S+)\n\s+- Status: (\w+)\n\s+- Description: \"(.*?)\"\n(?:\s+- Location: (.*?)\n)?", re.S)
+
+
+def parse(out):
+    checks = []
+    for m in CHECK_RE.finditer(out):
+        checks.append({"id": m.group(2), "status": m.group(3), "desc": m.group(4), "loc": (m.group(5) or "").strip()})
+    m = re.search(r"\*\* (\d+) of (\d+) failed(?: \((\d+) unreachable\))?", out)
+    summary = {"failed": int(m.group(1)), "total": int(m.group(2)), "unreachable": int(m.group(3) or 0)} if m else None
+    covers = re.search(r"\*\* (\d+) of (\d+) cover properties satisfied", out)
+    ok = "VERIFICATION:- SUCCESSFUL" in out
+    failed = "VERIFICATION:- FAILED" in out
+    cpb = None
+    m = re.search(r"(let concrete_vals: Vec<Vec<u8>> = vec!\[.*?\];)", out, re.S)
+    if m:
+        cpb = m.group(1)
+    return {"checks": checks, "summary": summary, "ok": ok, "failed": failed,
+            "covers": (int(covers.group(1)), int(covers.group(2))) if covers else None, "playback": cpb}
 
 
 def run_unit(here, repo, unit, ucfg, tier, prop):
-    raise NotImplementedError
+    crate_dir = os.path.join(here, ucfg["crate"])
+    lock = os.path.join(repo, "Cargo.lock")
+    if ucfg.get("copy_lock", True) and os.path.exists(lock):
+        shutil.copy(lock, os.path.join(crate_dir, "Cargo.lock"))
+    flags = list(ucfg.get("flags", []))
+    hs = [h for h in ucfg["harnesses"] if tier in h.get("tiers", ["quick", "thorough"]) and prop in h.get("tags", [prop])]
+    res = {"cmds": [], "checks": 0, "undecided": [], "fails": [], "samples": [], "bounded": [], "fn_reports": [], "assumptions": []}
+    if not hs:
+        res["undecided"].append(f"no kani harness of unit {unit} is registered for tier {tier} and {prop}")
+        return res
+    # build once (serial) so that the parallel runs do not fight over the cargo lock while compiling
+    first = _run_harness(crate_dir, hs[0]["name"], flags, ucfg.get("timeout_s", 1800))
+    results = [first]
+    if "error: could not compile" in first["out"] or "error[E" in first["out"]:
+        res["undecided"].append(f"kani crate {ucfg['crate']} does not compile against the current tree: " + first["out"][-1500:])
+        res["cmds"].append(first["cmd"])
+        return res
+    with ThreadPoolExecutor(max_workers=int(os.environ.get("KANI_JOBS", "6"))) as ex:
+        futs = [ex.submit(_run_harness, crate_dir, h["name"], flags, ucfg.get("timeout_s", 1800)) for h in hs[1:]]
+        results += [f.result() for f in futs]
+    for h, r in zip(hs, results):
+        res["cmds"].append(r["cmd"])
+        p = parse(r["out"])
+        tagged = [c for c in p["checks"] if re.search(r"\bU\d+\.", c["desc"])]
+        rep = {"id": h["name"], "path": "; ".join(h.get("real_fns", [])), "backend": "kani/cbmc", "verified": p["ok"],
+               "cbmc_checks": p["summary"]["total"] if p["summary"] else 0, "wall_s": round(r["wall_s"], 1),
+               "bound": h.get("bound"), "complete_for_domain": h.get("complete", False), "tags": h.get("tags", [prop])}
+        res["fn_reports"].append(rep)
+        if h.get("bound"):
+            res["bounded"].append(f"{h['name']}: {h['bound']}" + (" (complete for that domain: loop bound = operand width, unwinding assertions on)" if h.get("complete") else " (bounded stand-in, not counted as proved beyond the bound)"))
+        if p["summary"] is None or not (p["ok"] or p["failed"]):
+            res["undecided"].append(f"kani harness {h['name']} gave no verdict (rc={r['rc']}): " + r["out"][-800:])
+            continue
+        res["checks"] += p["summary"]["total"]
+        # vacuity: every property-tagged assertion must be reachable
+        unreach = [c for c in tagged if c["status"] == "UNREACHABLE"]
+        if unreach and not h.get("allow_unreachable"):
+            res["undecided"].append(f"vacuity: tagged assertions unreachable in {h['name']}: " + ", ".join(c["desc"][:60] for c in unreach[:4]))
+        if not tagged:
+            res["undecided"].append(f"vacuity: harness {h['name']} has no property-tagged assertion")
+        if p["covers"] and p["covers"][0] != p["covers"][1]:
+            res["undecided"].append(f"vacuity: cover properties unsatisfied in {h['name']}: {p['covers']}")
+        for c in tagged[:3]:
+            res["samples"].append({"obligation": f"{h['name']}: {c['desc'][:160]}", "status": c["status"]})
+        if p["failed"]:
+            bad = [c for c in p["checks"] if c["status"] == "FAILURE"]
+            unwind = [c for c in bad if "unwinding assertion" in c["desc"]]
+            if unwind and len(unwind) == len(bad):
+                res["undecided"].append(f"kani harness {h['name']}: only unwinding assertions failed (loop bound too small for the current code)")
+                continue
+            for c in bad[:5]:
+                m = re.search(r"\b(U\d+\.[A-Za-z0-9_.]+)", c["desc"])
+                oid = f"{h['name']}:{m.group(1)}" if m else f"{h['name']}:safety:{c['id']}"
+                res["fails"].append({"obligation": oid, "item": h["name"], "fn": "; ".join(h.get("real_fns", [])), "tags": h.get("tags", [prop]),
+                                     "message": c["desc"], "repo_site": c["loc"], "gen_line": None,
+                                     "rendered": f"Kani harness {h['name']}: FAILURE {c['id']}: {c['desc']} at {c['loc']}\n" + (p["playback"] or "")})
+    res["assumptions"] += ucfg.get("assumptions", [])
+    return res
